@@ -2004,3 +2004,139 @@ func init() {
 	extend("C02", "R02j (same rule as R05f: otherwise a pruning store later loses a live node and cannot compute the root a plain store computes).", staleHeight("R02j"))
 	extend("C04", "R04h (same rule as R05f: an abandoned pending branch's bookkeeping must not outlive the re-commit of its height).", staleHeight("R04h"))
 }
+
+func init() {
+	mkl := "common/merkle."
+	extend("C18", "R18h-R18i (added after seeded changes were missed): no condition inside a loop of the calculator is a snapshot, taken before the loop, of a variable the loop itself changes (the 'collecting siblings' flag turns true inside the padding loop); the height a partial chunk is padded to is computed from the same chunk-size variable that cuts the chunks (after its cap), not from an earlier, uncapped quantity.",
+		rule("R18h", "no loop condition is a stale snapshot of a loop-variant variable", 3, func(r *Run) {
+			n := 0
+			for _, fn := range []string{mkl + "Computation", mkl + "GetMerkleRoot", mkl + "getMerkleRootPad", mkl + "GetMerkleRootFromBranch"} {
+				f := r.Fn(fn)
+				if f == nil {
+					continue
+				}
+				c := f.Ctx()
+				for _, lp := range core.LoopsIn(f) {
+					n++
+					var body *ast.BlockStmt
+					switch s := lp.(type) {
+					case *ast.ForStmt:
+						body = s.Body
+					case *ast.RangeStmt:
+						body = s.Body
+					}
+					// variables assigned inside the loop (body, and post statement)
+					assigned := map[types.Object]bool{}
+					ast.Inspect(lp, func(x ast.Node) bool {
+						switch s := x.(type) {
+						case *ast.AssignStmt:
+							for _, l := range s.Lhs {
+								if id, ok := l.(*ast.Ident); ok {
+									assigned[c.Info.ObjectOf(id)] = true
+								}
+							}
+						case *ast.IncDecStmt:
+							if id, ok := s.X.(*ast.Ident); ok {
+								assigned[c.Info.ObjectOf(id)] = true
+							}
+						}
+						return true
+					})
+					bad := ""
+					ast.Inspect(body, func(x ast.Node) bool {
+						var cond ast.Expr
+						switch s := x.(type) {
+						case *ast.IfStmt:
+							cond = s.Cond
+						case *ast.ForStmt:
+							cond = s.Cond
+						}
+						if cond == nil {
+							return true
+						}
+						ast.Inspect(cond, func(y ast.Node) bool {
+							id, ok := y.(*ast.Ident)
+							if !ok {
+								return true
+							}
+							o := c.Info.ObjectOf(id)
+							v, isVar := o.(*types.Var)
+							if !isVar || v.IsField() || assigned[o] || (o.Pos() >= lp.Pos() && o.Pos() <= lp.End()) {
+								return true
+							}
+							defs := c.DefsOf(o)
+							if len(defs) != 1 || defs[0].Rhs == nil {
+								return true
+							}
+							ast.Inspect(defs[0].Rhs, func(z ast.Node) bool {
+								if zid, ok := z.(*ast.Ident); ok && assigned[c.Info.ObjectOf(zid)] {
+									if zv, ok := c.Info.ObjectOf(zid).(*types.Var); ok && !zv.IsField() {
+										bad = fmt.Sprintf("`%s` (defined at %s from `%s`) is tested inside the loop at %s, but `%s` is assigned inside that loop", id.Name, r.W.Pos(defs[0].Stmt.Pos()), core.ExprStr(defs[0].Rhs), r.W.Pos(cond.Pos()), zid.Name)
+									}
+								}
+								return true
+							})
+							return true
+						})
+						return true
+					})
+					label := fmt.Sprintf("%s: loop at %s tests no stale snapshot", f.Name, r.W.Pos(lp.Pos()))
+					if bad == "" {
+						r.OK(label, r.W.Pos(lp.Pos()), "conditions read live variables")
+					} else {
+						r.Fail(label, r.W.Pos(lp.Pos()), bad+": the condition keeps the value from before the loop")
+					}
+				}
+			}
+			if n < 3 {
+				r.Fail("common/merkle: loops examined", "common/merkle/merkle.go", fmt.Sprintf("expected ≥3, found %d", n))
+			}
+		}),
+		rule("R18i", "a partial chunk is padded to the height of the (capped) chunk size", 1, func(r *Run) {
+			f := r.Fn(mkl + "GetMerkleRoot")
+			if f == nil {
+				return
+			}
+			c := f.Ctx()
+			// the chunk-size variable: what the leaf count is taken modulo of
+			var step types.Object
+			ast.Inspect(f.Body(), func(x ast.Node) bool {
+				b, ok := x.(*ast.BinaryExpr)
+				if ok && b.Op == token.REM && lenOf(core.IsObj("param:0"))(c, b.X) {
+					if id, ok := ast.Unparen(b.Y).(*ast.Ident); ok {
+						step = c.Info.ObjectOf(id)
+					}
+				}
+				return true
+			})
+			label := f.Name + ": getMerkleRootPad receives the chunk size (or a value computed from it)"
+			if step == nil {
+				r.Fail(label, r.W.Pos(f.Node().Pos()), "cannot find len(hashes) % step (anchor changed)")
+				return
+			}
+			n := 0
+			for _, fi := range append([]*core.FuncInfo{f}, f.Closures()...) {
+				ci := fi.Ctx()
+				ast.Inspect(fi.Body(), func(x ast.Node) bool {
+					call, ok := x.(*ast.CallExpr)
+					if !ok {
+						return true
+					}
+					if fn := core.Callee(ci.Info, call); fn == nil || core.ShortName(fn) != mkl+"getMerkleRootPad" || len(call.Args) != 2 {
+						return true
+					}
+					n++
+					if mentionsIdent(ci, call.Args[1], step) {
+						r.OK(label, r.W.Pos(call.Pos()), core.ExprStr(call.Args[1]))
+					} else {
+						r.Fail(label, r.W.Pos(call.Pos()), fmt.Sprintf("the padding target `%s` is not computed from `%s`, the variable that cuts the chunks after its cap: a short last chunk is padded to a different height than the full chunks", core.ExprStr(call.Args[1]), step.Name()))
+					}
+					return true
+				})
+			}
+			if n == 0 {
+				r.Fail(label, r.W.Pos(f.Node().Pos()), "no call of getMerkleRootPad found")
+			}
+		}),
+	)
+}
